@@ -145,6 +145,37 @@ def eval_byte(t, env):
             return eval_byte(t[2][0], env)
         if base in ('try_from', 'try_into', 'branch') and t[2]:
             return eval_byte(t[2][0], env)
+        if '__variant' in env and len(t[2]) == 1:
+            # `self.packet_type()`: a function of the crate that maps the packet (whose variant is known on this path) to a
+            # constant - evaluated on the paths of its body that agree with the variant
+            F_, argi, d = env['__variant']
+            a = t[2][0]
+            while isinstance(a, tuple) and a and a[0] in ('ref', 'deref'):
+                a = a[1]
+            cb = F_.bodies.get(t[1])
+            if a == ('arg', argi) and cb is not None and not cb.is_coroutine and len(cb.blocks) <= 120:
+                vals = set()
+                for p_ in SymEx(cb, F_, max_paths=400).run():
+                    if p_.end[0] != 'return':
+                        continue
+                    ok = True
+                    for tm, c in p_.conds:
+                        x = tm
+                        if x[0] == 'discr':
+                            y = x[1]
+                            while isinstance(y, tuple) and y and y[0] in ('ref', 'deref'):
+                                y = y[1]
+                            if y == ('arg', 1):
+                                if (c[0] == 'eq' and c[1] != d) or (c[0] == 'ne' and d in c[1]):
+                                    ok = False
+                                continue
+                        ok = ok and tm[0] == 'assert'
+                        if tm[0] != 'assert':
+                            vals.add(None)
+                    if ok:
+                        vals.add(p_.ret[1] if p_.ret and p_.ret[0] == 'const' else None)
+                if len(vals) == 1:
+                    return vals.pop()
         return None
     if k == 'field':
         if isinstance(t[1], tuple) and t[1] and t[1][0] == 'downcast':
@@ -177,14 +208,15 @@ def first_byte(F, R, sf):
                 continue
             e0 = evl[0]
             val = None
+            env0 = {'__variant': (F, 1, d[0])}
             if e0[0] == 'put':
-                val = eval_byte(e0[3], {})
+                val = eval_byte(e0[3], env0)
             else:
                 arr = e0[3]
                 while arr[0] in ('ref', 'deref', 'cast'):
                     arr = arr[1]
                 if arr[0] == 'array':
-                    val = eval_byte(arr[1][0], {})
+                    val = eval_byte(arr[1][0], env0)
             enc[names[d[0]]] = val
         # decoder: first byte -> variant
         db = F.bodies[decfn]
@@ -419,13 +451,21 @@ def decode_fields(F, pk, table_entry):
                     local_of.setdefault(v, set()).add(l)
         # direct assignment idiom: `x = Some(..)` guarded by is_none (possibly through a temporary)
         for bi, j, s in db.assigns():
-            if bi in reg and not place_proj(s['lhs']) and db.local_name(s['lhs']['l']) and 'Option<' in (db.local_ty(s['lhs']['l']) or ''):
+            if bi not in reg:
+                continue
+            tl = s['lhs']['l'] if not place_proj(s['lhs']) else None
+            if place_proj(s['lhs']) == ['*']:
+                tl = root_local(db, {'cp': {'l': s['lhs']['l'], 'p': []}})  # `*slot = Some(..)` in a (spliced) helper handed `&mut local`
+            elif place_proj(s['lhs']):
+                q_ = norm_place(db, s['lhs'])   # `*env.k = Some(..)` in a (spliced) closure that captured the local
+                tl = q_['l'] if not place_proj(q_) else None
+            if tl is not None and db.local_name(tl) and 'Option<' in (db.local_ty(tl) or ''):
                 if s['rv']['k'] == 'agg' and s['rv'].get('variant') == 'Some':
-                    local_of.setdefault(v, set()).add(s['lhs']['l'])
+                    local_of.setdefault(v, set()).add(tl)
                 elif s['rv']['k'] == 'use' and op_place(s['rv']['op']) is not None:
                     src_l = op_place(s['rv']['op'])['l']
                     if any(d[2] == 'assign' and d[3]['rv']['k'] == 'agg' and d[3]['rv'].get('variant') == 'Some' for d in db.whole_defs(src_l)):
-                        local_of.setdefault(v, set()).add(s['lhs']['l'])
+                        local_of.setdefault(v, set()).add(tl)
     # struct literal
     fields = {}
     lits = [(bi, s) for bi, j, s in agg_sites(b, adt_pat, None)]
@@ -448,6 +488,9 @@ def root_local(b, op, depth=0):
     while p is not None and depth < 10:
         depth += 1
         if place_proj(p) and place_proj(p) != ['*']:
+            q_ = norm_place(b, p)   # `(*env.0)` of a (spliced) closure is the local the closure captured
+            if q_ != p and not place_proj(q_):
+                return q_['l']
             return None
         ds = [d for d in b.whole_defs(p['l']) if d[0] in b.live]
         if len(ds) == 1 and ds[0][2] == 'assign' and ds[0][3]['rv']['k'] in ('ref', 'rawptr'):
@@ -457,6 +500,9 @@ def root_local(b, op, depth=0):
             if place_proj(q) == ['*']:
                 p = {'l': q['l'], 'p': []}
                 continue
+            q_ = norm_place(b, q)   # `&mut *(*env).0` of a (spliced) closure: the local the closure captured
+            if not place_proj(q_):
+                return q_['l']
             return None
         if len(ds) == 1 and ds[0][2] == 'assign' and ds[0][3]['rv']['k'] == 'use':
             p = op_place(ds[0][3]['rv']['op'])
